@@ -307,7 +307,7 @@ def check_ops(rep, algopy, rng, tier, terms, metas):
         D = rng.randint(1, 3); P = rng.randint(1, 3)
         if it % 2 == 0:
             D = max(D, 2); P = max(P, 2)          # several coefficient slices that differ
-        shp = SHAPES[it % len(SHAPES)]
+        shp = (SHAPES + [()])[it % (len(SHAPES) + 1)]          # rank 0 as well: NumPy accepts it for all of these
         data = rnd(D, P, shp)
         nel = int(numpy.prod(shp, dtype=int))
         # reshape
